@@ -2940,6 +2940,7 @@ fn main() {
 	}
 	if mode == "all" || mode == "hsw" {
 		ext::handshake_wire(&mut cx);
+		ext::handshake_caps(&mut cx);
 	}
 	let stats = std::mem::take(&mut cx.stats);
 	for (k, v) in stats {
